@@ -6,7 +6,7 @@ def main(tier):
     c = sup.Check('C19', tier, 'exploration')
     quick = tier == 'quick'
     env = {'C19_TIER': tier}
-    c.set_deadline(600 if quick else 2400)
+    c.set_deadline(900 if quick else 3000)
     c.build('asan', ['c19'])
     c.build('plain', ['c19'])
     c.run_family('asan', 'c19', 'fix1', env=env)
